@@ -29,6 +29,7 @@ Fixpoint shape (e : fx) : list nat :=
   | FDefConj f => 15 :: shape f
   | FBreg q => shape q
   | FSep2 _ f g => 16 :: shape f ++ shape g
+  | FPair b P => [ptag P b]
   end%nat.
 
 Inductive ival := IV (v : @ext Q) | IE (e : err) | ISkip.
